@@ -29,6 +29,7 @@ RULE = (
     "the highest-index flow file with that triple loaded, raise FileNotFoundError for an empty set and ValueError on a time "
     "mismatch. Non-trivial: 0 < k < K with the body moving and the filter or free stream on (A); >= 2 triples with distinct "
     "contents (B). Distinct = digest of case."
+    " Bodies may be Cosserat rods (element / edge / nodal / surface +- caps grids); rolling checkpoints overwrite earlier files; helper directories may hold later body/forcing files without a flow file; couplings thrown out of the admissible domain are excluded and counted."
 )
 ASSUMPTIONS = [
     "rigid-body state is integrated by a 5-line symplectic Euler in the harness (no hidden integrator state; independent of the "
